@@ -163,6 +163,9 @@ pub fn check(c: &Case, obs: &mut Obs) -> R {
             match r {
                 Err(e) if &e == want => {}
                 other => {
+                    if what == "bound" && has_is_bound_bool(st) {
+                        return fail("bound-form-differs/is-with-bound-boolean", format!("reference {reference_sql:?} fails with {want:?}; the bound form {psql:?} does not\nspec {st:?}"));
+                    }
                     return fail(
                         format!("runtime-error-mismatch/{what}/{fsig}"),
                         format!("reference {reference_sql:?} fails with {want:?}; {what} form gives {:?}\ninline {inline:?}\nspec {st:?}", other.map(|o| o.rows.len())),
@@ -203,6 +206,9 @@ pub fn check(c: &Case, obs: &mut Obs) -> R {
         None => obs.label("unbindable-value"),
         Some(binds) => match execute(&psql, &binds) {
             Err(e) => {
+                if has_is_bound_bool(st) {
+                    return fail("bound-form-differs/is-with-bound-boolean", format!("the bound form {psql:?} fails ({e}) where the inline form {inline:?} runs\nspec {st:?}"));
+                }
                 return fail(format!("engine-rejects-bound/{fsig}"), format!("SQLite rejects {psql:?} with {:?}: {e}\nspec {st:?}", values_debug(&values)));
             }
             Ok(got) => {
